@@ -270,7 +270,8 @@ def finish(ctx, obligations, discharged, checker_cmd, rule, exhaustive=False):
         json.dump(ev, f, indent=1, default=str)
     for k, text in ctx.known_hits:
         print('KNOWN-FINDING: property=%s %s [%s]' % (ctx.pid, text, k))
-    for v in ctx.violations:
+    # violations with a failing input first: the first VIOLATION line is the one a reader (and the replay) starts from
+    for v in sorted(ctx.violations, key=lambda v_: not v_['found_input']):
         tail = '' if v['found_input'] else ' no-failing-input-found'
         print('VIOLATION property=%s replay=%s%s' % (ctx.pid, v['path'], tail))
         print('   ', v['what'])
